@@ -258,7 +258,7 @@ def dump_func_for_dataclass(cls: Type['E'],
                         field_assignments.append(f"if not {skip_field}:")
 
                     if json_field:
-                        field_assignments.append(f"  result.append(('{json_field}',"
+                        field_assignments.append(f"  result.append(({json_field!r},"
                                                  f"asdict(o.{field},dict_factory,hooks,config,cls_to_asdict,cls_dump_fn)))")
                     # Empty string, will be the case for a dataclass
                     # field which specifies a "JSON Path".
